@@ -3,7 +3,13 @@
 //! Tracks the price-time priority of orders, but also
 //! volume at price levels, and total volume on each side
 //!
+#[cfg(not(kani))]
 use std::collections::BTreeMap;
+#[cfg(kani)]
+#[path = "/verif/harness/verif_map.rs"]
+pub(crate) mod verif_map;
+#[cfg(kani)]
+use verif_map::BTreeMap;
 
 use super::types::{Nanos, OrderCount, OrderId, OrderKey, Price, Side, Vol};
 
@@ -468,3 +474,7 @@ mod tests {
         assert!(side.vol_and_orders_at_price(102) == (0, 0));
     }
 }
+
+#[cfg(any(kani, verif_replay))]
+#[path = "/verif/harness/side_proofs.rs"]
+pub(crate) mod verif_proofs;
